@@ -88,6 +88,27 @@ fn main() {
             }
             println!("reference: {:?}", vh::refmodel::parser::parse_document(&text).map(|d| d.defs.len()));
         }
+        "calib-schema" => {
+            // development aid: generated valid-by-construction schemas must validate in apollo
+            let n: u64 = arg(&args, "--n").and_then(|s| s.parse().ok()).unwrap_or(2000);
+            let mut bad = 0;
+            for i in 0..n {
+                let bytes = vh::runner::gen_case(1, "calib", 0, i, 600);
+                let mut c = vh::choices::Choices::new(&bytes);
+                let mut d = vh::gen::schema::schema(&mut c, &vh::gen::schema::Opts::default());
+                if i % 2 == 0 {
+                    vh::gen::schema::split_extensions(&mut c, &mut d);
+                }
+                let text = vh::refmodel::printer::print_document(&d);
+                if let Err(e) = apollo_compiler::Schema::parse_and_validate(&text, "s.graphql") {
+                    bad += 1;
+                    if bad <= 5 {
+                        println!("---- case {}\n{}\n{}", i, text, e.errors);
+                    }
+                }
+            }
+            println!("{} of {} rejected", bad, n);
+        }
         "aux" => {
             // auxiliary child entry points used by custom stages
             let id = arg(&args, "--prop").expect("--prop");
